@@ -544,6 +544,17 @@ def m6(prog: Program, chk: Check) -> None:
                 "the steps already set and compute_dynamics contracts the wrong network", st)
 
 
+def m9(prog: Program, chk: Check) -> None:
+    chk.rule("M9", "the contraction code never updates in place an array it does not own "
+             "(propagators and controls handed out by closures, MPO / cap tensors handed out by "
+             "process tensors, elements of containers): every consumer of a process tensor sees "
+             "the tensors and propagators as their owners made them, at every step", floor=10)
+    from rules.ownership import inplace_updates
+    inplace_updates(prog, chk, "M9", modules={"system_dynamics", "gradient", "pt_tebd", "process_tensor",
+                                               "backends.pt_tebd_backend", "system", "mps_mpo",
+                                               "bath_dynamics"}, floor=1)
+
+
 def run(prog: Program, chk: Check) -> None:
     chk.explanation = (
         "Claims C03 IN PART: structural necessary conditions of 'contracting any process tensor "
@@ -570,3 +581,4 @@ def run(prog: Program, chk: Check) -> None:
     chk.call(m6, prog, chk)
     chk.call(m7, prog, chk)
     chk.call(m8, prog, chk)
+    chk.call(m9, prog, chk)
